@@ -58,8 +58,8 @@ class C20(Prop):
     RULE = ("networkx round trip of every epsilon-NFA of FA(2..3 states,{a,b},<= t) (epsilon edges, several start states, "
             "parallel edges, isolated states) under naming schemes int/str/odd strings/helper-node names and odd symbol "
             "values, of every PDA of PDA(2,2,2,<=2) (strided) and every FST of FST(2,<=2); text round trip of every "
-            "grammar of CFG(2,2,2,<=3) under five spellings (VAR:/TER: markers, a variable and a terminal with the same "
-            "spelling, epsilon productions); from_ebnf on every text of 1-2 lines (3 lines strided) with heads S,A and "
+            "grammar of CFG(2,2,2,<=3) under nine spellings (VAR:/TER: markers, a variable and a terminal with the same "
+            "spelling, terminals spelt like epsilon markers, epsilon productions); from_ebnf on every text of 1-2 lines (3 lines strided) with heads S,A and "
             "bodies from all regex ASTs <= 3 nodes over {a,b,S,A,epsilon}; non-trivial = machine with >= 1 transition / "
             "grammar with >= 1 word / text with >= 2 lines")
     BOUNDS = "automata 2-3 states <= 4 transitions; PDA/FST 2 states <= 2 transitions; grammars <= 3 productions; EBNF <= 3 lines"
